@@ -301,6 +301,12 @@ func (e *Engine) header(c *FnCtx) string {
 	if usesBxor {
 		b.WriteString(bxorAxioms)
 	}
+	for _, ln := range c.script {
+		if strings.Contains(ln, "(objroot ") {
+			b.WriteString(objrootDef)
+			break
+		}
+	}
 	b.WriteString(pow2fDef())
 	b.WriteString(preamble2)
 	if e.usesStrID {
